@@ -106,5 +106,16 @@ func Go(f func()) {
 		return
 	}
 
-	go f()
+	GoLive.Add(1)
+
+	go func() {
+		defer GoLive.Add(-1)
+		f()
+	}()
 }
+
+// GoLive counts goroutines of the library that were started OUTSIDE a controlled execution and are still running:
+// workers started by an init function or lazily by an earlier call. While one exists, no cooperative execution owns
+// everything that runs library code (its function entries would reach the scheduler from a goroutine that is not one
+// of its threads), so the scheduler exploration and the scheduled traces declare themselves not applicable.
+var GoLive atomic.Int64
